@@ -352,6 +352,16 @@ Proof.
   intros s e. unfold w_import_err. destruct (str_eqb s [107]); intros H; injection H as <-; auto.
 Qed.
 
+(* ---- finding C19-g: OUTSIDE [getattr_documented] -- a module-level __getattr__ that raises ModuleNotFoundError (lazy import of a
+   missing optional dependency): only AttributeError is converted, the ModuleNotFoundError escapes *)
+Definition w_getattr_lazy (o : owner Z Z) (n : str) : M Z := Exn ModuleNotFoundError.
+Lemma lazy_getattr_escapes :
+  resolve Z Z Z w_import w_getattr_lazy (fun _ => true) (fun _ => Ok true) (fun _ => None) (fun _ => true) w_data
+  = RaiseF ModuleNotFoundError /\
+  full_spec Z Z Z w_import w_getattr_lazy (fun _ => true) (fun _ => Ok true) (fun _ => None) (fun _ => true) (tag_of [(JSON_TYPE_NAME, JStr [107; 46; 83])])
+  = RError EClassNotFound.
+Proof. split; reflexivity. Qed.
+
 (* ---- the correspondence instance is the model / the Spec *)
 Lemma model_rcase_unfold c :
   model_rcase c = outcome_sx (resolve Z Z Z (rc_import c) (rc_getattr c) (memz (rc_types c)) (rc_issub c)
